@@ -202,6 +202,27 @@ pub fn run(ctx: &Ctx) {
     f.lon20 = flarmenc::lon_field(t.truth[1]);
     ctx.sample(json!({"kind": "trip", "ts": t.ts, "reference": t.reference, "truth": t.truth, "packet": hex::encode(flarmenc::packet(&f, t.ts, t.trailer))}));
     ctx.judge(check_trip(ctx, &t));
+    if ctx.tier == vcore::ev::Tier::Thorough {
+        // coverage-guided campaign: bytes -> (timestamp, reference, packet), totality oracle inside the target
+        let mut seeds: Vec<Vec<u8>> = vec![vec![0; 6]];
+        for (line, ts) in include_str!("../../../corpus/flarm_golden.txt").lines().zip([1_655_274_034u32, 1_655_279_476u32]) {
+            if let Ok(p) = hex::decode(line.trim()) {
+                let mut s = ts.to_le_bytes().to_vec();
+                s.extend_from_slice(&[200, 131]);
+                s.extend_from_slice(&p);
+                seeds.push(s);
+            }
+        }
+        let c = crate::fuzzrun::Campaign { target: "flarm", oracle: "c15", seeds, runs_per_process: 150_000, processes: 16, max_len: 46 };
+        for input in crate::fuzzrun::campaign(ctx, &c) {
+            let Some((ts, reference, pkt)) = crate::fuzzmap::flarm_case(&input) else { crate::fuzzrun::unreproducible("flarm", &input) };
+            let r = check_total(ctx, ts, &reference, &pkt);
+            if r.is_ok() {
+                crate::fuzzrun::unreproducible("flarm", &input);
+            }
+            ctx.judge(r);
+        }
+    }
     if !pinned && ctx.n_violations() == 0 {
         eprintln!("INCONCLUSIVE: the captured packets are not reproduced although every generated round trip passes");
         std::process::exit(2);
